@@ -40,6 +40,15 @@ pub struct Context {
     version: Option<String>,
 }
 
+fn log_safety_rank(safety: &Option<LogSafety>) -> u8 {
+    match safety {
+        Some(LogSafety::Safe) => 3,
+        None => 2,
+        Some(LogSafety::Unsafe) => 1,
+        Some(LogSafety::DoNotLog) => 0,
+    }
+}
+
 fn context_type_names(defs: &ConjureDefinition) -> Vec<TypeName> {
     defs.types()
         .iter()
@@ -106,14 +115,17 @@ impl Context {
 
         // The log safety of named types is the greatest fixpoint of the per-type rules: every type starts out safe and
         // is lowered until nothing changes. A recursive type is then safe only if everything reachable from it is,
-        // independently of the order in which types are evaluated.
+        // independently of the order in which types are evaluated. A type is only ever lowered (safe > unknown >
+        // unsafe > do-not-log), never raised again: the object rule stops at the first field of unknown safety, so its
+        // result can move back up when another type is lowered, and the iteration would otherwise never settle for
+        // some recursive definitions.
         let names = context_type_names(defs);
         loop {
             let mut changed = false;
             for name in &names {
                 let safety = context.compute_type_log_safety(name);
                 let ctx = &context.types[name];
-                if *ctx.log_safety.borrow() != safety {
+                if log_safety_rank(&safety) < log_safety_rank(&ctx.log_safety.borrow()) {
                     *ctx.log_safety.borrow_mut() = safety;
                     changed = true;
                 }
